@@ -54,6 +54,7 @@ theorem twoU_map (f : α → β) (hf : StrictMono f) (x1 x2 : List α) :
   unfold twoU
   simp only [List.map_map, Function.comp_def, pairW_map f hf]
 
+omit [LinearOrder α] [LinearOrder β] in
 theorem splits_map (f : α → β) (l : List α) : ∀ n,
     splits n (l.map f) = (splits n l).map (fun p => (p.1.map f, p.2.map f)) := by
   induction l with
@@ -78,6 +79,319 @@ theorem pPerm_map (f : α → β) (hf : StrictMono f) (x1 x2 : List α) :
     pPerm (x1.map f) (x2.map f) = pPerm x1 x2 := by
   unfold pPerm tailLower tailUpper
   simp only [← List.map_append, nullDist_map f hf, twoU_map f hf, List.length_map]
+
+end
+
+/-! ### reordering -/
+
+section
+variable {α : Type}
+
+def consL (a : α) (p : List α × List α) : List α × List α := (a :: p.1, p.2)
+def consR (a : α) (p : List α × List α) : List α × List α := (p.1, a :: p.2)
+
+theorem splits_succ_cons (n : Nat) (a : α) (l : List α) :
+    splits (n + 1) (a :: l) = (splits n l).map (consL a) ++ (splits (n + 1) l).map (consR a) := rfl
+
+theorem splits_zero (l : List α) : splits 0 l = [([], l)] := by cases l <;> rfl
+
+theorem splits_zero_cons (a : α) (l : List α) : splits 0 (a :: l) = (splits 0 l).map (consR a) := by
+  simp [splits_zero, consR]
+
+/-- `f` does not depend on the order inside either part -/
+def PermInv (f : List α × List α → Nat) : Prop :=
+  ∀ p q : List α × List α, p.1.Perm q.1 → p.2.Perm q.2 → f p = f q
+
+theorem PermInv.consL {f : List α × List α → Nat} (hf : PermInv f) (a : α) : PermInv (f ∘ consL a) :=
+  fun _ _ h1 h2 => hf _ _ (List.Perm.cons a h1) h2
+
+theorem PermInv.consR {f : List α × List α → Nat} (hf : PermInv f) (a : α) : PermInv (f ∘ consR a) :=
+  fun _ _ h1 h2 => hf _ _ h1 (List.Perm.cons a h2)
+
+/-- the family of labelings of a reordered pool is the same family, up to order -/
+theorem splits_perm {l1 l2 : List α} (h : l1.Perm l2) :
+    ∀ (n : Nat) (f : List α × List α → Nat), PermInv f →
+      ((splits n l1).map f).Perm ((splits n l2).map f) := by
+  induction h with
+  | nil => intro n f _; exact List.Perm.refl _
+  | @cons a l1' l2' h ih =>
+    intro n f hf
+    cases n with
+    | zero =>
+      simp only [splits_zero, List.map_cons, List.map_nil]
+      rw [hf ([], a :: l1') ([], a :: l2') (List.Perm.refl _) (List.Perm.cons a h)]
+    | succ n =>
+      simp only [splits_succ_cons, List.map_append, List.map_map]
+      exact List.Perm.append (ih n _ (hf.consL a)) (ih (n + 1) _ (hf.consR a))
+  | swap a b l =>
+    intro n f hf
+    have hLL : ∀ p : List α × List α, (f ∘ consL b ∘ consL a) p = (f ∘ consL a ∘ consL b) p :=
+      fun p => hf _ _ (List.Perm.swap _ _ _) (List.Perm.refl _)
+    have hRR : ∀ p : List α × List α, (f ∘ consR b ∘ consR a) p = (f ∘ consR a ∘ consR b) p :=
+      fun p => hf _ _ (List.Perm.refl _) (List.Perm.swap _ _ _)
+    have hLR : (f ∘ consL b ∘ consR a) = (f ∘ consR a ∘ consL b) := rfl
+    have hRL : (f ∘ consR b ∘ consL a) = (f ∘ consL a ∘ consR b) := rfl
+    cases n with
+    | zero =>
+      simp only [splits_zero, List.map_cons, List.map_nil]
+      rw [hf ([], b :: a :: l) ([], a :: b :: l) (List.Perm.refl _) (List.Perm.swap _ _ _)]
+    | succ n =>
+      cases n with
+      | zero =>
+        simp only [splits_succ_cons, splits_zero_cons, List.map_append, List.map_map]
+        rw [List.map_congr_left (fun p _ => hRR p), hLR, hRL]
+        rw [List.perm_iff_count]
+        intro x
+        simp only [List.count_append]
+        omega
+      | succ n =>
+        simp only [splits_succ_cons, List.map_append, List.map_map]
+        rw [List.map_congr_left (fun p _ => hRR p), List.map_congr_left (fun p _ => hLL p), hLR, hRL]
+        rw [List.perm_iff_count]
+        intro x
+        simp only [List.count_append]
+        omega
+  | trans _ _ ih1 ih2 =>
+    intro n f hf
+    exact (ih1 n f hf).trans (ih2 n f hf)
+
+end
+
+section
+variable {α : Type} [LinearOrder α]
+
+theorem twoU_perm {x1 y1 x2 y2 : List α} (h1 : x1.Perm y1) (h2 : x2.Perm y2) : twoU x1 x2 = twoU y1 y2 := by
+  unfold twoU
+  have inner : ∀ a : α, (x2.map fun b => pairW a b).sum = (y2.map fun b => pairW a b).sum :=
+    fun a => (h2.map _).sum_nat
+  simp only [inner]
+  exact (h1.map _).sum_nat
+
+theorem twoU_permInv : PermInv (fun p : List α × List α => twoU p.1 p.2) :=
+  fun _ _ h1 h2 => twoU_perm h1 h2
+
+theorem nullDist_perm {l1 l2 : List α} (h : l1.Perm l2) (n : Nat) : (nullDist n l1).Perm (nullDist n l2) :=
+  splits_perm h n _ twoU_permInv
+
+theorem countLE_perm {d1 d2 : List Nat} (h : d1.Perm d2) (u : Nat) : countLE d1 u = countLE d2 u :=
+  (h.filter _).length_eq
+
+theorem countGE_perm {d1 d2 : List Nat} (h : d1.Perm d2) (u : Nat) : countGE d1 u = countGE d2 u :=
+  (h.filter _).length_eq
+
+theorem pPerm_perm {x1 y1 x2 y2 : List α} (h1 : x1.Perm y1) (h2 : x2.Perm y2) : pPerm x1 x2 = pPerm y1 y2 := by
+  have hd := nullDist_perm (h1.append h2) x1.length
+  unfold pPerm tailLower tailUpper
+  simp only [← h1.length_eq, twoU_perm h1 h2, countLE_perm hd, countGE_perm hd, hd.length_eq]
+
+end
+
+/-! ### swapping the samples -/
+
+section
+variable {α : Type}
+
+theorem splits_gt (l : List α) : ∀ n, l.length < n → splits n l = [] := by
+  induction l with
+  | nil => intro n h; cases n with
+    | zero => simp at h
+    | succ n => rfl
+  | cons a l ih =>
+    intro n h
+    cases n with
+    | zero => simp at h
+    | succ n =>
+      simp only [List.length_cons] at h
+      rw [splits_succ_cons, ih n (by omega), ih (n + 1) (by omega)]; rfl
+
+theorem splits_length_self (l : List α) : splits l.length l = [(l, [])] := by
+  induction l with
+  | nil => rfl
+  | cons a l ih =>
+    simp only [List.length_cons]
+    rw [splits_succ_cons, ih, splits_gt l (l.length + 1) (by omega)]; rfl
+
+theorem splits_lengths (l : List α) : ∀ n, ∀ p ∈ splits n l, p.1.length = n ∧ p.1.length + p.2.length = l.length := by
+  induction l with
+  | nil =>
+    intro n p hp
+    cases n with
+    | zero => simp [splits] at hp; subst hp; simp
+    | succ n => simp [splits] at hp
+  | cons a l ih =>
+    intro n p hp
+    cases n with
+    | zero => simp [splits_zero] at hp; subst hp; simp
+    | succ n =>
+      rw [splits_succ_cons] at hp
+      rcases List.mem_append.mp hp with h | h
+      · obtain ⟨q, hq, rfl⟩ := List.mem_map.mp h
+        have := ih n q hq
+        simp [consL]; omega
+      · obtain ⟨q, hq, rfl⟩ := List.mem_map.mp h
+        have := ih (n + 1) q hq
+        simp [consR]; omega
+
+theorem swap_consL (a : α) (p : List α × List α) : Prod.swap (consL a p) = consR a (Prod.swap p) := rfl
+theorem swap_consR (a : α) (p : List α × List α) : Prod.swap (consR a p) = consL a (Prod.swap p) := rfl
+
+/-- choosing the complement: labelings with `len − n` firsts, parts exchanged, are the labelings
+with `n` firsts -/
+theorem splits_compl (l : List α) : ∀ n, n ≤ l.length →
+    ((splits (l.length - n) l).map Prod.swap).Perm (splits n l) := by
+  induction l with
+  | nil => intro n h; simp at h; subst h; exact List.Perm.refl _
+  | cons a l ih =>
+    intro n h
+    simp only [List.length_cons] at h ⊢
+    cases n with
+    | zero =>
+      simp only [Nat.sub_zero]
+      rw [splits_succ_cons, splits_gt l (l.length + 1) (by omega), splits_zero_cons]
+      simp only [List.map_nil, List.append_nil, List.map_map]
+      have := (ih 0 (Nat.zero_le _)).map (consR a)
+      simp only [Nat.sub_zero, List.map_map] at this
+      exact this
+    | succ m =>
+      have hm : m ≤ l.length := by omega
+      have e : l.length + 1 - (m + 1) = l.length - m := by omega
+      rw [e]
+      rcases Nat.eq_zero_or_pos (l.length - m) with h0 | hpos
+      · have hml : m = l.length := by omega
+        subst hml
+        rw [h0, splits_zero, splits_succ_cons, splits_length_self, splits_gt l (l.length + 1) (by omega)]
+        exact List.Perm.refl _
+      · obtain ⟨k, hk⟩ : ∃ k, l.length - m = k + 1 := ⟨l.length - m - 1, by omega⟩
+        rw [hk, splits_succ_cons, splits_succ_cons]
+        simp only [List.map_append, List.map_map]
+        have hk1 : k = l.length - (m + 1) := by omega
+        have ih1 := (ih (m + 1) (by omega)).map (consR a)
+        have ih2 := (ih m hm).map (consL a)
+        rw [← hk1] at ih1
+        rw [hk] at ih2
+        simp only [List.map_map] at ih1 ih2
+        have e1 : (Prod.swap ∘ consL a : List α × List α → _) = consR a ∘ Prod.swap := rfl
+        have e2 : (Prod.swap ∘ consR a : List α × List α → _) = consL a ∘ Prod.swap := rfl
+        rw [e1, e2]
+        exact (List.Perm.append ih1 ih2).trans List.perm_append_comm
+end
+
+section
+variable {α : Type} [LinearOrder α]
+
+theorem pairW_add (a b : α) : pairW a b + pairW b a = 2 := by
+  unfold pairW
+  rcases lt_trichotomy a b with h | h | h
+  · have h1 : ¬ b < a := not_lt.mpr (le_of_lt h)
+    have h2 : a ≠ b := ne_of_lt h
+    simp [h, h1, h2, Ne.symm h2]
+  · subst h; simp
+  · have h1 : ¬ a < b := not_lt.mpr (le_of_lt h)
+    have h2 : b ≠ a := ne_of_lt h
+    simp [h, h1, h2, Ne.symm h2]
+
+theorem pair_sums (a : α) (y : List α) :
+    (y.map (pairW a)).sum + (y.map (fun b => pairW b a)).sum = 2 * y.length := by
+  induction y with
+  | nil => simp
+  | cons b y ih =>
+    simp only [List.map_cons, List.sum_cons, List.length_cons]
+    have := pairW_add a b
+    omega
+
+theorem twoU_cons_left (a : α) (x y : List α) : twoU (a :: x) y = (y.map (pairW a)).sum + twoU x y := by
+  simp [twoU]
+
+theorem twoU_cons_right (a : α) (x y : List α) :
+    twoU y (a :: x) = (y.map (fun b => pairW b a)).sum + twoU y x := by
+  induction y with
+  | nil => simp [twoU]
+  | cons b y ih =>
+    rw [twoU_cons_left, twoU_cons_left, ih]
+    simp only [List.map_cons, List.sum_cons]
+    omega
+
+/-- U₁ + U₂ = n₁·n₂ (in 2·U units) -/
+theorem twoU_swap (x y : List α) : twoU x y + twoU y x = 2 * x.length * y.length := by
+  induction x with
+  | nil => simp [twoU]
+  | cons a x ih =>
+    rw [twoU_cons_left, twoU_cons_right]
+    have := pair_sums a y
+    simp only [List.length_cons]
+    have e : 2 * (x.length + 1) * y.length = 2 * y.length + 2 * x.length * y.length := by ring
+    omega
+
+theorem tails_swap (x1 x2 : List α) :
+    tailLower x2 x1 = tailUpper x1 x2 ∧ tailUpper x2 x1 = tailLower x1 x2 := by
+  set M := 2 * x1.length * x2.length with hM
+  have hu := twoU_swap x1 x2
+  have hpool : (x2 ++ x1).Perm (x1 ++ x2) := List.perm_append_comm
+  have hlen : (x1 ++ x2).length - x1.length = x2.length := by simp
+  -- the null distribution of the swapped problem is M − (the null distribution)
+  have hd : (nullDist x2.length (x2 ++ x1)).Perm ((nullDist x1.length (x1 ++ x2)).map (fun u => M - u)) := by
+    refine (nullDist_perm hpool x2.length).trans ?_
+    have hc := splits_compl (x1 ++ x2) x1.length (by simp)
+    rw [hlen] at hc
+    have h1 : nullDist x2.length (x1 ++ x2) =
+        ((splits x2.length (x1 ++ x2)).map Prod.swap).map (fun p => twoU p.2 p.1) := by
+      simp [nullDist, List.map_map, Function.comp_def]
+    rw [h1]
+    refine (hc.map _).trans ?_
+    unfold nullDist
+    rw [List.map_map]
+    apply List.Perm.of_eq
+    apply List.map_congr_left
+    intro p hp
+    have hl := splits_lengths (x1 ++ x2) x1.length p hp
+    have hs := twoU_swap p.1 p.2
+    have h2 : p.2.length = x2.length := by simp at hl; omega
+    simp only [Function.comp_def]
+    rw [hl.1, h2] at hs
+    omega
+  have hbound : ∀ u ∈ nullDist x1.length (x1 ++ x2), u ≤ M := by
+    intro u hu'
+    unfold nullDist at hu'
+    obtain ⟨p, hp, rfl⟩ := List.mem_map.mp hu'
+    have hl := splits_lengths (x1 ++ x2) x1.length p hp
+    have hs := twoU_swap p.1 p.2
+    have h2 : p.2.length = x2.length := by simp at hl; omega
+    rw [hl.1, h2] at hs
+    omega
+  have hu1 : twoU x2 x1 = M - twoU x1 x2 := by omega
+  have hule : twoU x1 x2 ≤ M := by omega
+  have hcLE : countLE (nullDist x2.length (x2 ++ x1)) (twoU x2 x1) =
+      countGE (nullDist x1.length (x1 ++ x2)) (twoU x1 x2) := by
+    rw [countLE_perm hd, hu1]
+    unfold countLE countGE
+    rw [List.filter_map, List.length_map]
+    congr 1
+    apply List.filter_congr
+    intro u hu'
+    have := hbound u hu'
+    simp only [Function.comp_def, decide_eq_decide]
+    omega
+  have hcGE : countGE (nullDist x2.length (x2 ++ x1)) (twoU x2 x1) =
+      countLE (nullDist x1.length (x1 ++ x2)) (twoU x1 x2) := by
+    rw [countGE_perm hd, hu1]
+    unfold countLE countGE
+    rw [List.filter_map, List.length_map]
+    congr 1
+    apply List.filter_congr
+    intro u hu'
+    have := hbound u hu'
+    simp only [Function.comp_def, decide_eq_decide]
+    omega
+  have hlen2 : (nullDist x2.length (x2 ++ x1)).length = (nullDist x1.length (x1 ++ x2)).length := by
+    rw [hd.length_eq, List.length_map]
+  unfold tailLower tailUpper
+  simp only [hcLE, hcGE, hlen2]
+  exact ⟨trivial, trivial⟩
+
+theorem pPerm_swap (x1 x2 : List α) : pPerm x1 x2 = pPerm x2 x1 := by
+  unfold pPerm
+  rw [(tails_swap x1 x2).1, (tails_swap x1 x2).2]
+  exact combine2_comm _ _
 
 end
 
